@@ -292,6 +292,20 @@ def step (d : Drv) (cmd : List Sexp) : Drv × String :=
         let d := if d.f04.contains ln || d.f04.contains rn then { d with f04 := n :: d.f04 } else d
         (d.setDirect n dv).report n (if res.isSame then "same" else "new") (.ok (res.get l))
     | _, _, _, _, _ => (d, "bad-ref")
+  -- (joinon rN rL rR (COLS) PRED bt tr): join with explicit common columns
+  | [atom "joinon", atom n, atom ln, atom rn, list cs, px, atom bt, atom tr] =>
+    match d.rel? ln, d.rel? rn, decCols d.env cs, decPred d.env px, decBool bt, decBool tr with
+    | some l, some r, some common, some p, some bt, some tr =>
+      match l.joinOn d.store r p common bt tr with
+      | .error e => (d, errLine e)
+      | .ok res =>
+        let dv : Option (Cols × List Row × Bool) :=
+          match d.direct? ln, d.direct? rn with
+          | some (lc, lr, lk), some (rc, rr, rk) => some (lc.union rc, joinRows common p lr rr, lk && rk)
+          | _, _ => none
+        let d := if d.f04.contains ln || d.f04.contains rn then { d with f04 := n :: d.f04 } else d
+        (d.setDirect n dv).report n (if res.isSame then "same" else "new") (.ok (res.get l))
+    | _, _, _, _, _, _ => (d, "bad-ref")
   | [atom "chain", atom n, atom ln, atom rn] =>
     match d.rel? ln, d.rel? rn with
     | some l, some r =>
